@@ -6,39 +6,56 @@ ID = "C12"
 COQ_PROPS = "Props/C12.v"
 THEOREMS = ["C12_history", "C12_fresh", "C12_no_ties", "C12_files", "C12_dtype"]
 ALLOWED_AXIOMS = []
-RULE = ("synthetic in-memory DICOM series (grids S<=4 x T<=3 x V<=3, 7 orientations x 2 slice directions, explicit or "
-        "guessed ordering keys, complete or with a dropped / duplicated / misfiled / pixel-less file or an irregular gap; "
-        "per-file BitsStored / PixelRepresentation / pixel range / AcquisitionTime presence varied; two or three "
-        "different RepetitionTime values (incl. pairs colliding in an 8-slot hash table: 2000/3000, 1000/9000) and mixed "
-        "ROW / COL / absent phase directions across files) x random histories: adds in random order interleaved with "
-        "shape / data / affine queries and conversions (8 voxel orders, embed on/off, to_nifti_wrapper), ending in one "
-        "conversion; the result is compared byte for byte with fresh stacks given the accepted files in other orders "
-        "(1 order; 6 orders, thorough all 24 permutations, for four-file stacks and stacks with several TR / phase "
-        "values); pixdim[4], the dim_info phase code and the dtype of every converted image are also compared inside "
-        "Coq.  Non-trivial: at least two accepted files and at least one query or conversion before the final one")
+RULE = ("synthetic in-memory DICOM series (grids S<=4 x T<=3 x V<=3, 7 orientations x 2 slice directions, explicit "
+        "(plain key, abs_ordering, abs_as_str) or guessed ordering keys, complete or with a dropped / duplicated / "
+        "misfiled / pixel-less file or an irregular gap; single-file stacks (10 %) and four-file stacks (20 %); per-file "
+        "BitsStored / PixelRepresentation / pixel range / AcquisitionTime presence varied; several RepetitionTime values "
+        "(incl. pairs colliding in an 8-slot hash table) and mixed phase directions; default extractor or a hand-built "
+        "meta argument) x random histories: adds in random order interleaved with shape / data / affine queries and "
+        "conversions (8 voxel orders and None, embed on/off, to_nifti_wrapper), sometimes a first partial history "
+        "ended by clear(), the caller scribbling over returned arrays / images / extensions, ending in one conversion. "
+        "EVERY query and conversion of the history is compared by value (array, affine, header fields, embedded JSON, "
+        "NIfTI bytes) with the same call on fresh stacks holding the files accepted so far, added in other orders (final "
+        "call: 2 orders, 6 for four-file stacks and stacks with several TR / phase values, thorough all 24 "
+        "permutations); every result handed out is kept and re-read by value after every later operation; shape, "
+        "dtype, pixdim[4], the dim_info phase code and the order of the files in the returned voxels (read off the "
+        "pixel values) are also compared inside Coq.  Non-trivial: at least one accepted file and at least one "
+        "successful query or conversion before the final one")
 TRUSTED_BASE = [
-    "nibabel DicomWrapper (slice_indicator, affine) and dcmstack.extract.default_extractor are contracts: the per-file "
-    "abstraction given to the model is read from them (props/stacklib.abstract_file)",
-    "whether a voxel order flips the slice axis of an ascending stack is read from the real reorder_voxels on the "
-    "reference file's affine (props/stacklib.wants_flip); the model only needs that reversing the files negates the "
-    "slice column (slices are stacked along the slice normal)",
+    "nibabel DicomWrapper (slice_indicator, affine, get_data) and pydicom are contracts: the per-file abstraction "
+    "given to the model is read from them and from the meta dictionary add_dcm works with (props/stacklib."
+    "abstract_file); it is model INPUT only - the oracle clause `abstraction == generator spec` "
+    "(stacklib.spec_truth / abstraction_diff) checks it against the generator's ground truth",
+    "whether a voxel order flips the slice axis of an ascending stack, and the axis permutation, are read from the "
+    "real reorder_voxels on the reference file's affine (stacklib.wants_flip / axis_perm) as model input; the model "
+    "only needs that reversing the files negates the slice column (slices are stacked along the slice normal)",
     "the conversion OUTPUT of the model is abstract (file order, shape, flip, affine source, slice column, TR, phase "
-    "direction): that array, affine, header fields and embedded JSON are functions of it is checked by the byte "
-    "comparison of the oracle, not proved",
+    "direction, dtype): that array, affine, header fields and embedded JSON are functions of it is checked by the "
+    "by-value comparison of the oracle, not proved",
     "Python list.sort is a stable sort (Stack.Model.ssort)",
 ]
 ASSUMPTIONS = [
-    "classic single-frame data sets; ordinates numeric or fixed-width TM strings; slices stacked along the normal",
+    "classic single-frame data sets; ordinates numbers or strings compared as Python compares them (stacklib._num embeds them order-preservingly); slices stacked along the normal",
     "after a TypeError inside list.sort (explicit key missing on some files) the order of the files is unspecified in "
-    "Python and not modelled: such histories are outside the generator (the theorem is about the model, where the "
-    "failed sort leaves the list unchanged)",
-    "Python object aliasing between the stack and returned images is not modelled (the returned affine IS the first "
-    "file's array); covered only by the byte comparison",
+    "Python and not modelled: such histories are outside the generator",
+    "only public results are observed (get_shape / get_data / get_affine / to_nifti / to_nifti_wrapper return values "
+    "and add_dcm raising or not); clear() is modelled as a new stack; a caller editing a returned object is no "
+    "operation of the model",
+    "since fix 9c7aa81 get_affine returns a copy and no longer edits the first file's own affine: the property's "
+    "anchor `in-place edit of first file affine is idempotent` is trivially true, the model has no such component "
+    "any more; the clauses `an affine returned earlier keeps its value` and `edit the returned affine, ask again` "
+    "are part of the oracle (reverting 9c7aa81 is reported with a failing input)",
     "both histories must accept the same multiset of files: which files are accepted can depend on the add order "
     "(first colliding file wins, congruence is relative to the first file) - that is C11's subject",
 ]
 
 DEFECTS = ['none'] * 6 + ['drop1', 'duplicate', 'nopix', 'tie_straddle', 'misfiled_dup', 'gap', 'collide', 'bad_ordinate']
+
+# F25 (fixed in 9c7aa81): get_affine handed out the first file's internal array - an affine returned earlier was
+# rewritten by later calls, and a caller editing it corrupted the stack.  Both clauses are on.
+CHECK_AFFINE_ALIAS = True
+
+VOS = L.VOXEL_ORDERS + [None]
 
 
 def rand_query(rng):
@@ -50,8 +67,8 @@ def rand_query(rng):
     if r < 0.5:
         return ['affine']
     if r < 0.9:
-        return ['nifti', rng.choice(L.VOXEL_ORDERS), rng.random() < 0.5]
-    return ['wrapper', rng.choice(L.VOXEL_ORDERS)]
+        return ['nifti', rng.choice(VOS), rng.random() < 0.5]
+    return ['wrapper', rng.choice(VOS)]
 
 
 def gen_cases(rng, tier):
@@ -70,7 +87,9 @@ def gen_cases(rng, tier):
             cfg['T'] = max(cfg['T'], 2)
         if defect == 'gap' and cfg['S'] < 3:
             cfg['S'] = rng.choice([3, 4])
-        small = rng.random() < 0.2
+        fam = rng.random()
+        small = fam < 0.2
+        single = 0.2 <= fam < 0.3
         if small:
             # four files, every add order (thorough) / six add orders (quick) against the history
             cfg['S'], cfg['T'] = rng.choice([(2, 2), (4, 1), (1, 4)] if cfg['mode'] != 'none' else [(4, 1)])
@@ -78,6 +97,10 @@ def gen_cases(rng, tier):
             if cfg['mode'] == 'vec':
                 cfg['T'] = 1
                 cfg['S'] = 4
+        if single:
+            # a single file: the conversion works on that file's own extension (deep-copied before it is edited)
+            cfg['S'] = cfg['T'] = cfg['V'] = 1
+            defect = 'none'
         files = L.grid_from_config(rng, cfg)
         attrs = L.vary_attrs(rng, cfg, files)
         hdr = L.vary_header_sets(rng, cfg, files) if (small or rng.random() < 0.4) and \
@@ -86,67 +109,95 @@ def gen_cases(rng, tier):
         order = L.add_order(rng, files)
         ops = []
         early = rng.random() < 0.35          # queries while files are still being added
+        if rng.random() < 0.08 and len(order) >= 2:
+            # some files, a query, clear(), then the real history
+            pre = order[:rng.randint(1, len(order))]
+            ops += [['add', i] for i in pre] + [rand_query(rng), ['clear']]
         for i in order:
             ops.append(['add', i])
             if early and rng.random() < 0.25:
                 ops.append(rand_query(rng))
-        for _ in range(rng.choice([0, 1, 1, 2, 2, 3, 4, 6])):
-            ops.append(rand_query(rng))
-        final = ['nifti', rng.choice(L.VOXEL_ORDERS), rng.random() < 0.6] if rng.random() < 0.85 else ['wrapper', rng.choice(L.VOXEL_ORDERS)]
+        nq = rng.choice([0, 1, 1, 2, 2, 3, 4, 6]) if not single else rng.choice([2, 3, 4, 6])
+        for _ in range(nq):
+            q = rand_query(rng)
+            if single and rng.random() < 0.7:
+                q = ['nifti', rng.choice(VOS), True] if rng.random() < 0.8 else ['wrapper', rng.choice(VOS)]
+            ops.append(q)
+            if rng.random() < 0.2 and q[0] in ('data', 'affine', 'nifti', 'wrapper'):
+                # the caller scribbles over the result it was handed; later results must not notice
+                ops.append(['mutate', q[0] if q[0] in ('data', 'affine') else 'nifti'])
+        final = ['nifti', rng.choice(VOS), rng.random() < 0.6] if rng.random() < 0.85 else ['wrapper', rng.choice(VOS)]
         ops.append(final)
         note['attrs'] = attrs
         note['hdr'] = hdr
-        case = {'kind': '%s/%s' % (cfg['mode'], defect), 'note': note, 'dims': [cfg['S'], cfg['T'], cfg['V']],
+        case = {'kind': '%s/%s%s' % (cfg['mode'], defect, '/single' if single else '/four' if small else ''),
+                'note': note, 'dims': [cfg['S'], cfg['T'], cfg['V']],
                 'orient': cfg['orient'], 'direction': cfg['direction'], 'fresh_seed': rng.randrange(1 << 30),
-                'nfresh': (24 if tier != 'quick' else 6) if (small or hdr) else 1}
+                'nfresh': (24 if tier != 'quick' else 6) if (small or hdr) else 2}
+        if rng.random() < 0.1:
+            case['meta_arg'] = True
         case.update(L.case_header(cfg))
         case['files'] = files
         case['ops'] = ops
-        cases.append(case)
+        if L.case_valid(case):
+            cases.append(case)
     return cases
 
 
-PART_KEYS = ['data', 'dtype', 'shape', 'affine', 'pixdim4', 'dim_info', 'slice', 'units', 'ext']
+QUERY_OPS = ('shape', 'data', 'affine', 'nifti', 'wrapper')
+
+
+def accepted_before(case, obs):
+    """for every operation: the files the stack holds when it starts (accepted since the last clear())"""
+    out, acc = [], []
+    for op, o in zip(case['ops'], obs['ops']):
+        out.append(list(acc))
+        if op[0] == 'add' and o['r'] == 'ok':
+            acc.append(op[1])
+        elif op[0] == 'clear' and o['r'] == 'ok':
+            acc = []
+    return out
 
 
 def run_impl(case):
-    import dcmstack
+    """The history on one stack (every result kept and re-read by value after every later operation), and for
+    EVERY query / conversion of the history the same call on fresh stacks holding the files accepted so far, added
+    in other orders."""
+    import dcmstack, itertools
     r, obs = L.run_history(dcmstack, case)
-    final = case['ops'][-1]
-    hist = None if obs['ops'][-1]['r'] != 'ok' else L.nifti_parts(r.last)
-    # fresh stacks: the accepted files in other orders (all permutations of up to four files when asked for),
-    # then only the final conversion
-    import itertools
-    acc = list(r.accepted)
-    nf = case.get('nfresh', 1)
+    before = accepted_before(case, obs)
     rng = random.Random(case.get('fresh_seed', 0))
-    if nf >= 24 and len(acc) <= 4:
-        orders = [list(p) for p in itertools.permutations(acc)]
-    else:
-        orders = []
-        for _ in range(nf):
-            o = list(acc)
-            rng.shuffle(o)
-            orders.append(o)
-    diff, refused, rs = set(), [], set()
-    same = True
-    for o in orders:
-        fcase = dict(case)
-        fcase['ops'] = [['add', i] for i in o] + [final]
-        fr = L.Runner(dcmstack, fcase)
-        fobs = [fr.apply(op) for op in fcase['ops']]
-        refused += [x['r'] for x in fobs[:-1] if x['r'] != 'ok']
-        rs.add(fobs[-1]['r'])
-        fresh = None if fobs[-1]['r'] != 'ok' else L.nifti_parts(fr.last)
-        if hist is not None and fresh is not None:
-            d = [k for k in PART_KEYS + ['bytes'] if hist[k] != fresh[k]]
-            diff.update(d)
-            same = same and not d
+    last = len(case['ops']) - 1
+    cmp = []
+    for k, (op, o) in enumerate(zip(case['ops'], obs['ops'])):
+        if op[0] not in QUERY_OPS:
+            continue
+        acc = before[k]
+        nf = case.get('nfresh', 2) if k == last else 1
+        if nf >= 24 and len(acc) <= 4:
+            orders = [list(p) for p in itertools.permutations(acc)]
         else:
-            same = same and (hist is None) == (fresh is None) and obs['ops'][-1]['r'] == fobs[-1]['r']
-    obs['fresh'] = {'orders': len(orders), 'refused': refused, 'r': sorted(rs)}
-    obs['diff'] = sorted(diff)
-    obs['same'] = same
+            orders = []
+            for _ in range(nf):
+                x = list(acc)
+                rng.shuffle(x)
+                orders.append(x)
+        rec = {'op': k, 'kind': op[0], 'r': o['r'], 'orders': len(orders), 'refused': 0, 'fr': [], 'diff': []}
+        for order in orders:
+            fcase = dict(case)
+            fcase['ops'] = [['add', i] for i in order] + [op]
+            fr = L.Runner(dcmstack, fcase)
+            fobs = [fr.apply(x) for x in fcase['ops']]
+            rec['refused'] += len([x for x in fobs[:-1] if x['r'] != 'ok'])
+            f = fobs[-1]
+            if f['r'] not in rec['fr']:
+                rec['fr'].append(f['r'])
+            if o['r'] == 'ok' and f['r'] == 'ok':
+                rec['diff'] = sorted(set(rec['diff']) | set(p for p in o['val'] if o['val'][p] != f['val'].get(p)))
+        cmp.append(rec)
+    obs['cmp'] = cmp
+    for o in obs['ops']:
+        o.pop('val', None)
     return obs
 
 
@@ -159,46 +210,62 @@ CORR_CASE_TYPE = "Corr.case"
 CORR_CHECK = "Corr.check"
 CORR_SHOW = "Corr.show"
 SHARD = 20
-IMPL_TIMEOUT = 60
+IMPL_TIMEOUT = 120
 NAME = "main"
 
 
+def judge(case, obs):
+    """C12 on the implementation's public results alone -> list of (code, message):
+      exc/<op>       a query / conversion of the history and the same call on a fresh stack holding the same files
+                     (added in another order) do not both succeed / raise the same exception class
+      differs/<op>   both succeed with different values (array, affine, header fields, embedded JSON, NIfTI bytes)
+      earlier-changed/<kind>   a result handed out earlier no longer has the value it was returned with after a
+                     later operation on the stack
+      abstraction/<field>      (harness) the library-derived model input differs from the generator's ground truth"""
+    out = []
+    for rec in obs.get('cmp', []):
+        if rec['refused']:
+            continue          # the fresh stack did not accept the same files: not a statement of C12
+        if rec['fr'] != [rec['r']]:
+            out.append(('exc/' + rec['kind'], 'operation %d (%s): history -> %s, fresh stacks -> %s'
+                        % (rec['op'], rec['kind'], rec['r'], ','.join(rec['fr']))))
+        elif rec['diff']:
+            out.append(('differs/' + rec['kind'], 'operation %d (%s) differs from a fresh stack with the same files in: %s'
+                        % (rec['op'], rec['kind'], ','.join(rec['diff']))))
+    for k, kind, after, parts in obs.get('changed', []):
+        if kind == 'affine' and not CHECK_AFFINE_ALIAS:
+            continue
+        out.append(('earlier-changed/' + kind, 'the %s returned by operation %d changed (%s) during operation %d'
+                    % (kind, k, ','.join(parts), after)))
+    truth = [L.spec_truth(f, case) for f in case['files']]
+    for f, a in zip(truth, obs['files']):
+        d = L.abstraction_diff(a, f)
+        if d:
+            out.append(('abstraction/' + d, 'file %d: the library-derived %s differs from the generator spec' % (f['id'], d)))
+            break
+    return out
+
+
 def oracle(case, obs):
-    """C12 on the implementation alone: the final conversion of the history equals, byte for byte, the one
-    of a fresh stack given the accepted files in another order (or both raise the same exception class)."""
-    if not isinstance(obs, dict) or 'fresh' not in obs:
+    if not isinstance(obs, dict) or 'cmp' not in obs:
         return None
-    if obs['fresh']['refused']:
-        return None          # the fresh stack did not accept the same files: not a statement of C12
-    if obs['same']:
+    msgs = judge(case, obs)
+    if not msgs:
         return None
-    h, f = obs['ops'][-1]['r'], obs['fresh']['r']
-    if f != [h]:
-        return 'final conversion: history -> %s, fresh stacks -> %s' % (h, ','.join(f))
-    return 'final conversion differs from a fresh stack in: %s' % ','.join(obs['diff'])
+    return '[%s] %s' % msgs[0]
 
 
 def signature(case, obs, msg):
-    return 'c12/' + msg.split(':')[0][:40].replace(' ', '-')
+    return 'c12/' + (msg[1:msg.index(']')] if msg.startswith('[') and ']' in msg else 'other')
 
 
 def nontrivial(case, obs):
+    """at least one accepted file and at least one successful query or conversion before the final one"""
     if not isinstance(obs, dict) or 'ops' not in obs:
         return False
-    nq = len([op for op in case['ops'][:-1] if op[0] != 'add'])
-    return len(obs.get('accepted', [])) >= 2 and nq >= 1
+    nq = len([1 for op, o in list(zip(case['ops'], obs['ops']))[:-1] if op[0] in QUERY_OPS and o['r'] == 'ok'])
+    return len(obs.get('accepted', [])) >= 1 and nq >= 1
 
 
 def shrink(case):
     return L.shrink_files(case)
-
-
-# end-to-end composition (integrator): conv_full (coq/Conv/Full.v) threads the permutation, flip bit and final affine that
-# the geometry half computes into the embed step exactly as DicomStack.to_nifti does; theorems in Props/C12full.v
-from props import convfull as _convfull
-COQ_PROPS = (list(COQ_PROPS) if isinstance(COQ_PROPS, (list, tuple)) else [COQ_PROPS]) + ['Props/C12full.v']
-THEOREMS = list(THEOREMS) + ['C12_full_dependency', 'C12_full_history', 'C12_full_fresh', 'C12_full_resorted']
-COQ_EXTRA_TARGETS = list(globals().get('COQ_EXTRA_TARGETS') or []) + ['Conv/FullCorr.vo']
-TABLES = sorted(set(list(globals().get('TABLES') or []) + ['t_classes', 't_ext_tol', 't_stack', 't_filter', 't_time', 't_conv']))
-import sys as _sys
-PARTS = [_sys.modules[__name__], _convfull.FullPart]
